@@ -69,4 +69,23 @@ def minOf : List Nat → Option Nat
     | none => some x
     | some m => some (if x ≤ m then x else m)
 
+/-- the abstract priority queue `heapq` implements: `pop` removes one smallest key of the multiset (`none` = empty) -/
+def absPop (q : List Nat) : Option Nat × List Nat :=
+  match minOf q with
+  | none => (none, [])
+  | some m => (some m, q.erase m)
+
+/-- a sequence of `heappush(heap, v)` (`some v`) and `heappop(heap)` (`none`) on the binary heap: what the pops
+    return (`none` = IndexError) -/
+def runHeap (h : List Nat) : List (Option Nat) → List (Option Nat)
+  | [] => []
+  | some v :: os => runHeap (heappush h v) os
+  | none :: os => (heappop h).1 :: runHeap (heappop h).2 os
+
+/-- the same sequence on the abstract priority queue -/
+def runAbs (q : List Nat) : List (Option Nat) → List (Option Nat)
+  | [] => []
+  | some v :: os => runAbs (v :: q) os
+  | none :: os => (absPop q).1 :: runAbs (absPop q).2 os
+
 end IrVerif.Sort.Heap
